@@ -21,6 +21,12 @@ for r in res:
     tests_s = "" if tests is None else ("pass" if tests else "FAIL")
     rows.append("| `%s` | %s | %s | %s | %s | %s |" % (name, origin, what, caught, first_kind(r), tests_s))
 table = "| change | origin | what it breaks / what it needs to manifest | caught by (quick tier) | first violation kind | repo tests on the mutant |\n|---|---|---|---|---|---|\n" + "\n".join(rows)
+by_check = {}
+for r in res:
+    for pch in r.get("caught_by", []):
+        by_check.setdefault(pch, []).append(r["name"])
+inverse = "\n".join("* **%s** catches %d: %s" % (k, len(v), ", ".join("`%s`" % x for x in v)) for k, v in sorted(by_check.items()))
+table = table + "\n\nBy check:\n\n" + inverse
 n = len(res); c = sum(1 for r in res if r.get("caught_by"))
 summary = "%d breaking changes, %d caught by at least one expected check, %d missed." % (n, c, n - c)
 p = os.path.join(HERE, "DESIGN.md")
